@@ -9,6 +9,7 @@ from __future__ import annotations
 from .scenarios import scn, no_value_check, raises_check, compat_seqs, TT
 from .torchmodel import make_tt
 from .values import *
+from .sym import P
 
 
 def _opaque(tag):
@@ -45,3 +46,65 @@ scn(name="truediv:ttm/ttm", func=TT + "__truediv__", props=("C18", "C13"), hooks
     compat=compat_seqs(("N_x", "N_y", "x", "y"), ("M_x", "M_y", "x", "y")), args=lambda it: (make_tt(it, "x", True), [make_tt(it, "y", True)], {}))
 scn(name="truediv:tt/ttm", func=TT + "__truediv__", props=("C18",), hooks=H_DMRG, presets=NOCPP, must_raise=True, min_returns=0, check=raises_check,
     args=lambda it: (make_tt(it, "x", False), [make_tt(it, "y", True)], {}))
+
+
+# --------------------------------------------------------------------------- valid operands (incl. a well-formed initial guess) are never rejected
+
+def _assume(it, *rels):
+    """rels: ('d', a, b) equal orders | ('seq', sa, sb) equal mode sequences"""
+    f = it.facts
+    for r in rels:
+        if r[0] == "d":
+            f.assume_eq(P.atom(f"d_{r[1]}"), P.atom(f"d_{r[2]}"), "valid operands")
+        else:
+            ra, rb = f.seq_rep(r[1]), f.seq_rep(r[2])
+            if ra != rb:
+                f.seq[rb] = ra
+
+
+def _valid(name, func, props, build, recv=False):
+    scn(name=name, func=func, props=props, hooks=H_DMRG, presets=NOCPP, check=no_value_check, valid_operands=True, args=build)
+
+
+def _fm_valid(it):
+    A, x, y0 = make_tt(it, "A", True), make_tt(it, "x", False), make_tt(it, "y0", False)
+    _assume(it, ("d", "A", "x"), ("d", "A", "y0"), ("seq", "N_A", "N_x"), ("seq", "M_A", "N_y0"))
+    return A, [x], {"initial": y0}
+
+
+def _had_valid(it):
+    x, y, z0 = make_tt(it, "x", False), make_tt(it, "y", False), make_tt(it, "z0", False)
+    _assume(it, ("d", "x", "y"), ("d", "x", "z0"), ("seq", "N_x", "N_y"), ("seq", "N_x", "N_z0"))
+    return None, [x, y], {"z0": z0}
+
+
+def _mv_valid(it):
+    A, b, x0 = make_tt(it, "A", True), make_tt(it, "b", False), make_tt(it, "x0", False)
+    _assume(it, ("d", "A", "b"), ("d", "A", "x0"), ("seq", "N_A", "N_b"), ("seq", "M_A", "N_x0"))
+    return None, [A, b], {"x0": x0}
+
+
+def _mm_valid(it):
+    A, B, X0 = make_tt(it, "A", True), make_tt(it, "B", True), make_tt(it, "X0", True)
+    _assume(it, ("d", "A", "B"), ("d", "A", "X0"), ("seq", "N_A", "M_B"), ("seq", "M_A", "M_X0"), ("seq", "N_B", "N_X0"))
+    return None, [A, B], {"X0": X0}
+
+
+def _solve_valid(it):
+    A, b, x0 = make_tt(it, "A", True), make_tt(it, "b", False), make_tt(it, "x0", False)
+    _assume(it, ("d", "A", "b"), ("d", "A", "x0"), ("seq", "N_A", "N_b"), ("seq", "M_A", "N_A"), ("seq", "N_A", "N_x0"))
+    return None, [A, b], {"x0": x0}
+
+
+def _div_valid(it):
+    x, y = make_tt(it, "x", False), make_tt(it, "y", False)
+    _assume(it, ("d", "x", "y"), ("seq", "N_x", "N_y"))
+    return x, [y], {}
+
+
+_valid("fast_matvec:valid+initial", TT + "fast_matvec", ("C11",), _fm_valid)
+_valid("dmrg_hadamard:valid+z0", "_dmrg.dmrg_hadamard", ("C11",), _had_valid)
+_valid("amen_mv:valid+x0", "_amen.amen_mv", ("C11",), _mv_valid)
+_valid("amen_mm:valid+X0", "_amen.amen_mm", ("C11",), _mm_valid)
+_valid("amen_solve:valid+x0", "solvers.amen_solve", ("C12",), _solve_valid)
+_valid("truediv:valid", TT + "__truediv__", ("C13",), _div_valid)
